@@ -221,6 +221,10 @@ class Killer(Process):
             return {'agents': {'_delete': [target]}}
         if self.parameters['mode'] == 'move':
             return {'agents': {'_move': [{'source': (target,), 'target': 'agents2'}]}}
+        if self.parameters['mode'] == 'replace':
+            # a new (serial) process is generated over the parallel one, at its path
+            return {'agents': {'_generate': [{'key': target, 'processes': {'par': TickProcess({'ts': 1, 'var': 'x'})},
+                                              'topology': {'par': {'vars': ('vars',)}}, 'initial_state': {}}]}}
         daughters = []
         for k in ('d1', 'd2'):
             params = {'ts': self.parameters['daughter_ts'], 'var': 'x'}
